@@ -25,6 +25,7 @@ func init() {
 }
 
 func runC06(r *Run) {
+	r.NoSharedBigIntInLoop([]string{"consensus"}, "decoded or computed per-element numbers (weights, amounts) must be separate objects")
 	r.CacheInventory(cachePkgs, cacheTriage, "a result memoised from one ledger state (branch, height, view, block content) must never be served for another: every cache names its invalidation mechanism")
 	pop, add := "common/db.(*ldbManager).Pop", "common/db.(*ldbManager).Add"
 	r.Alias("$pf", "db.GetFrontierIdentifier(db.NewLevelDBSnapshotWrapper(recv.ldb.GetSnapshot()#0).Subset(db.frontierByte))")
